@@ -2,13 +2,19 @@ package props
 
 import (
 	"bytes"
+	"encoding/json"
 	"fmt"
+	"os"
+	"os/exec"
+	"reflect"
 	"strings"
+	"sync"
 
 	"github.com/ipfs/go-cid"
 	"github.com/libp2p/go-libp2p/core/crypto"
 
 	"github.com/ucan-wg/go-ucan/did"
+	"github.com/ucan-wg/go-ucan/pkg/args"
 	"github.com/ucan-wg/go-ucan/pkg/command"
 	"github.com/ucan-wg/go-ucan/pkg/container"
 	"github.com/ucan-wg/go-ucan/pkg/meta"
@@ -533,6 +539,7 @@ func c19ConcSub() *engine.Sub {
 				panic(err)
 			}
 			seen := map[string]bool{}
+			var seenMu sync.Mutex // (the harness' own bookkeeping; the real sync package)
 			var cs []engine.Call
 			for _, plain := range []string{"shared-secret-plaintext-0123456789", "x"} {
 				for ki, key := range [][]byte{k1, k2} {
@@ -543,10 +550,13 @@ func c19ConcSub() *engine.Sub {
 							return "add-error:" + err.Error()
 						}
 						raw, _ := mm.GetBytes("k")
-						if seen[string(raw)] {
+						seenMu.Lock()
+						dup := seen[string(raw)]
+						seen[string(raw)] = true
+						seenMu.Unlock()
+						if dup {
 							return "CIPHERTEXT-REPEATED"
 						}
-						seen[string(raw)] = true
 						got, err := mm.GetEncryptedString("k", key)
 						if err != nil || got != plain {
 							return fmt.Sprintf("roundtrip-differs:%q,%v", got, err)
@@ -673,6 +683,284 @@ func c03ConcSub() *engine.Sub {
 						return "ctor-error"
 					}
 					return errLabel(inv2.ExecutionAllowed(ld))
+				}})
+			}
+			return cs
+		}, allPairs, 2, 3)
+}
+
+// ---- free-running race-detector pass over the E6 call lists ----
+
+type concRaceCase struct {
+	Only string `json:"only,omitempty"` // replay: a single sub-test name
+}
+
+// concRaceSub runs `go test -race ./racepass -run TestConcCalls` for one property: the same calls the
+// cooperative scheduler interleaves, free-running, two goroutines per sub-test (a call against a
+// sweep over all calls, a call against itself, sweep against sweep). A sub-test marked failed by the
+// detector - or a test process killed by the runtime ("concurrent map writes") - is a violation.
+func concRaceSub(prop string) *engine.Sub {
+	return &engine.Sub{
+		Name:    "race-detector-pass",
+		Serial:  true,
+		Replays: 1,
+		Rule:    "free-running pass for what the cooperative scheduler cannot see (accesses without any synchronization): after a sequential warm-up of all calls (twice), every 1/40th call of the concurrent sub-checks' call lists runs against a concurrent sweep over all calls and against itself, and two sweeps run against each other, each in two goroutines released by a barrier, as sub-tests of `go test -race ./racepass` built from /repo's working tree (same build overlay; in race builds the shim's Pool is the real sync.Pool and free-running shim operations are exactly the real primitives, so the detector sees the real happens-before edges). The detector's verdict is happens-before based; non-trivial = all",
+		Bound: func(string) string {
+			return "<= 40 calls x {vs sweep, vs itself} + sweep vs sweep, per concurrent sub-check of the property"
+		},
+		Gen: func(tier string, emit func(any) bool) {
+			emit(&concRaceCase{})
+		},
+		NewCase: func() any { return &concRaceCase{} },
+		Run: func(ctx *engine.Ctx, c any) {
+			cs := c.(*concRaceCase)
+			args := []string{"test", "-tags", "verif", "-race", "-count=1", "-json", "-run", "TestConcCalls"}
+			if ov := os.Getenv("VERIF_OVERLAY"); ov != "" {
+				args = append(args, "-overlay", ov)
+			}
+			args = append(args, "./racepass")
+			cmd := exec.Command("go", args...)
+			cmd.Dir = harnessDir()
+			cmd.Env = append(os.Environ(), "GOFLAGS=-mod=mod", "GOPROXY=off", "GOSUMDB=off", "GOTOOLCHAIN=local", "VERIF_RACE_PROP="+prop)
+			if cs.Only != "" {
+				cmd.Env = append(cmd.Env, "VERIF_RACE_ONLY="+cs.Only)
+			}
+			var out, errb bytes.Buffer
+			cmd.Stdout, cmd.Stderr = &out, &errb
+			runErr := cmd.Run()
+			type ev struct{ Action, Test, Output string }
+			ran, failed := map[string]bool{}, map[string]bool{}
+			raceOut := map[string]string{}
+			var all strings.Builder
+			parsed := 0
+			for _, line := range strings.Split(out.String(), "\n") {
+				var e ev
+				if json.Unmarshal([]byte(line), &e) != nil {
+					continue
+				}
+				parsed++
+				if e.Action == "output" && all.Len() < 1<<20 {
+					all.WriteString(e.Output)
+				}
+				if e.Test == "" {
+					continue
+				}
+				switch e.Action {
+				case "run":
+					ran[e.Test] = true
+				case "fail":
+					failed[e.Test] = true
+				case "output":
+					if len(raceOut[e.Test]) < 1<<16 {
+						raceOut[e.Test] += e.Output
+					}
+				}
+			}
+			ctx.States(1)
+			if strings.Contains(all.String(), "fatal error:") || strings.Contains(errb.String(), "fatal error:") {
+				// the runtime killed the test process: concurrent map access, memory corruption
+				msg := all.String() + errb.String()
+				if i := strings.Index(msg, "fatal error:"); i >= 0 {
+					msg = msg[i:]
+				}
+				ctx.Outcome("process-killed")
+				ctx.Failf(cs, "process-dies-under-concurrency", "the free-running concurrent pass is killed by the Go runtime: %.300s", strings.ReplaceAll(msg, "\n", " | "))
+				return
+			}
+			if parsed == 0 || len(ran) == 0 {
+				panic(fmt.Sprintf("harness: go test -race produced no results (err=%v): %.2000s", runErr, errb.String()+out.String()))
+			}
+			for t := range ran {
+				if !strings.Contains(t, "/") {
+					continue
+				}
+				ctx.Eval(1)
+				ctx.Trans(1)
+				ctx.Nontrivial(1)
+				if !failed[t] {
+					ctx.Outcome("no-race")
+					continue
+				}
+				ctx.Outcome("race-reported")
+				name := strings.TrimPrefix(t, "TestConcCalls/")
+				if raceLocations(raceOut[t]) == "unlocated" {
+					// neither access has a go-ucan frame on its stack: the harness' own bookkeeping races
+					panic(fmt.Sprintf("harness: data race outside go-ucan in sub-test %s: %.1500s", name, raceOut[t]))
+				}
+				ctx.Failf(&concRaceCase{Only: name}, "data-race/"+raceLocations(raceOut[t]), "the race detector reports a data race while running %s between %s", name, raceLocations(raceOut[t]))
+			}
+		},
+	}
+}
+
+// manySelectors parses n distinct valid selectors and reports how many came back printing as they
+// were written: enough distinct inputs to fill, rotate and evict whatever table a parser may keep.
+func manySelectors(n int) string {
+	ok := 0
+	for i := 0; i < n; i++ {
+		t := fmt.Sprintf(".k%04d[%d]", i, i%7)
+		s, err := selector.Parse(t)
+		if err == nil && s.String() == t {
+			ok++
+		}
+	}
+	return fmt.Sprintf("%d/%d", ok, n)
+}
+
+func c09ConcSub() *engine.Sub {
+	return engine.ConcurrentSub("concurrent-untrusted-input", "decoders given valid and hostile input from two logical threads: each returns what it returns alone, nothing panics or deadlocks",
+		func(tier string) []engine.Call {
+			var cs []engine.Call
+			guard := func(f func() string) func() string {
+				return func() (r string) {
+					defer func() {
+						if p := recover(); p != nil {
+							r = fmt.Sprintf("PANIC: %v", p)
+						}
+					}()
+					return f()
+				}
+			}
+			for _, t := range tokensForConc() {
+				t := t
+				cs = append(cs, engine.Call{Name: "FromSealed(" + t.Name + ")", Want: "ok", Run: guard(func() string {
+					if _, _, err := token.FromSealed(t.Sealed); err != nil {
+						return "error"
+					}
+					return "ok"
+				})})
+				for _, cut := range []int{1, len(t.Sealed) / 2, len(t.Sealed) - 1} {
+					cut := cut
+					cs = append(cs, engine.Call{Name: fmt.Sprintf("FromSealed(%s[:%d])", t.Name, cut), Want: "error", Run: guard(func() string {
+						if _, _, err := token.FromSealed(t.Sealed[:cut]); err != nil {
+							return "error"
+						}
+						return "ok"
+					})})
+				}
+				// a signature of the right shape that does not verify, and an empty one
+				p := splitEnvelope(t.Sealed)
+				for _, sig := range [][]byte{bytes.Repeat([]byte{0x30}, len(p.Sig)), {}, reverse(append([]byte{}, p.Sig...))} {
+					bad := assembleWithSig(sig, sigPayloadNode(p.Header, p.Tag, nMap(p.Payload...)))
+					cs = append(cs, engine.Call{Name: fmt.Sprintf("FromSealed(%s, %d-byte bad signature)", t.Name, len(sig)), Want: "error", Run: guard(func() string {
+						if _, _, err := token.FromSealed(bad); err != nil {
+							return "error"
+						}
+						return "ok"
+					})})
+				}
+			}
+			for _, js := range []string{`[["==", ".a", 1]]`, `[["==", 42, 1]]`, `[["like", ".a", "a\\"]]`, `[["and", [["not", ["any", ".l", [">", ".", 1]]]]]]`, `[["nope"]]`, `{`} {
+				js := js
+				cs = append(cs, engine.Call{Name: "policy.FromDagJson(" + js + ")", Run: guard(func() string {
+					p, err := policy.FromDagJson(js)
+					if err != nil {
+						return "error"
+					}
+					ok, _ := p.Match(nMap(kv{"a", nInt(1)}, kv{"l", nList(nInt(2))}))
+					return fmt.Sprint("ok:", ok)
+				})})
+			}
+			for _, t := range []string{".a.b[0]", ".a[", `.["x`, ".[1:2]?", "..", ".a?.b?[-1]"} {
+				t := t
+				cs = append(cs, engine.Call{Name: "selector.Parse(" + t + ")", Run: guard(func() string {
+					s, err := selector.Parse(t)
+					if err != nil {
+						return "error"
+					}
+					n, err := s.Select(nMap(kv{"a", nMap(kv{"b", nList(nInt(7))})}))
+					return fmt.Sprint(s.String(), n != nil, err != nil)
+				})})
+			}
+			cs = append(cs, engine.Call{Name: "selector.Parse(1500 distinct)", Want: "1500/1500", Run: guard(func() string { return manySelectors(1500) })})
+			cs = append(cs, engine.Call{Name: "selector.Parse(first 600 again)", Want: "600/600", Run: guard(func() string { return manySelectors(600) })})
+			for _, d := range []string{"did:key:z6MkhaXgBZDvotDkL5257faiztiGiC2QtKLGpbnnEGta2doK", "did:key:z", "did:key:zQ3shokFTS3brHcDQrn82RUDfCZESWL1ZdCEJwekUDPQiYBme", "did:key:z6Mk"} {
+				d := d
+				cs = append(cs, engine.Call{Name: "did.Parse+PubKey(" + d[:min(len(d), 16)] + ")", Run: guard(func() string {
+					x, err := did.Parse(d)
+					if err != nil {
+						return "error"
+					}
+					_, err = x.PubKey()
+					return fmt.Sprint("parsed, pubkey ok=", err == nil)
+				})})
+			}
+			return cs
+		}, allPairs, 2, 3)
+}
+
+func c10ConcSub() *engine.Sub {
+	return engine.ConcurrentSub("concurrent-construction", "constructors and decoders given in-range and out-of-range integers (flat, nested, deep) from two logical threads: what is stored is what was supplied, what is out of range is refused",
+		func(tier string) []engine.Call {
+			k := fixtures.Get("ed25519", 0)
+			deep := func(v any, n int) any {
+				for i := 0; i < n; i++ {
+					v = []any{v}
+				}
+				return v
+			}
+			big := int64(1) << 60
+			vals := []struct {
+				name string
+				v    any
+				ok   bool
+			}{
+				{"7", 7, true}, {"2^53-1", int64(1<<53 - 1), true}, {"2^60", big, false}, {"[2^60]", []any{big}, false},
+				{"[[2^60],deep(1,300)]", []any{[]any{big}, deep(1, 300)}, false}, {"deep(5,300)", deep(5, 300), true}, {"deep(2^60,70)", deep(big, 70), false},
+				{"{a:[1,2],b:{c:2^53}}", map[string]any{"a": []int{1, 2}, "b": map[string]any{"c": int64(1 << 53)}}, false}, {"str", "hello", true}, {"list", []int{1, 2, 3}, true},
+			}
+			var cs []engine.Call
+			for _, v := range vals {
+				v := v
+				want := "rejected"
+				if v.ok {
+					s, _ := goShape(reflect.ValueOf(v.v))
+					want = "stored:" + s
+				}
+				cs = append(cs, engine.Call{Name: "invocation.New(arg " + v.name + ")", Want: want, Run: func() string {
+					t, err := invocation.New(k.DID, otherPrincipal(k, 1), "/a", []cid.Cid{cidPool[0]}, invocation.WithNonce(fixedNonce), invocation.WithArgument("v", v.v))
+					if err != nil {
+						return "rejected"
+					}
+					n, err := t.Arguments().GetNode("v")
+					if err != nil {
+						return "lost"
+					}
+					return "stored:" + nodeShape(n)
+				}})
+				cs = append(cs, engine.Call{Name: "args.Add(" + v.name + ")", Want: want, Run: func() string {
+					a := args.New()
+					if err := a.Add("v", v.v); err != nil {
+						return "rejected"
+					}
+					n, _ := a.GetNode("v")
+					return "stored:" + nodeShape(n)
+				}})
+			}
+			// a correctly signed invocation whose argument holds 2^60, and a well-formed one
+			for _, name := range []string{"int=2^53", "int1"} {
+				p := c10BasePayload("inv", "ed25519")
+				var es []kv
+				for _, e := range p.Payload {
+					if e.K == "args" {
+						v := nInt(1)
+						if name == "int=2^53" {
+							v = nInt(1 << 53)
+						}
+						e = kv{"args", nMap(kv{"k", nList(v)})}
+					}
+					es = append(es, e)
+				}
+				sealed := assemble(k, sigPayloadNode(p.Header, p.Tag, nMap(es...)))
+				want := "decoded"
+				if name == "int=2^53" {
+					want = "rejected"
+				}
+				cs = append(cs, engine.Call{Name: "invocation.FromSealed(args " + name + ")", Want: want, Run: func() string {
+					if _, _, err := invocation.FromSealed(sealed); err != nil {
+						return "rejected"
+					}
+					return "decoded"
 				}})
 			}
 			return cs
